@@ -268,6 +268,19 @@ def call_func(ex, name, args, kwargs, e):
                 m = If(t < m, t, m) if name == "min" else If(t > m, t, m)
             return VZ(m, k)
         raise Unsupported("%s(...) at %d" % (name, e.lineno))
+    if name == "round" and len(args) == 1 and not kwargs and kind_of(args[0]) in ("int", "real"):
+        if kind_of(args[0]) == "int":
+            return args[0]
+        x = ex.scalar(args[0], "real", e)
+        r = fresh("round", INT)        # nearest integer, ties to even (Python 3)
+        rr = z3.ToReal(r)
+        ex.assume(And(x - RealVal("1/2") <= rr, rr <= x + RealVal("1/2")))
+        ex.assume(Implies(Or(x - rr == RealVal("1/2"), rr - x == RealVal("1/2")), r % 2 == 0))
+        return VZ(r, "int")
+    if name == "abs" and len(args) == 1 and kind_of(args[0]) in ("int", "real"):
+        k = kind_of(args[0])
+        x = ex.scalar(args[0], k, e)
+        return VZ(If(x >= 0, x, -x), k)
     if name == "tuple":
         if args and isinstance(args[0], VTuple):
             return args[0]
